@@ -117,9 +117,9 @@ def run(tier, v):
             continue
         seen_l.add((inv, ln))
         row = lrows[ln - 1]
-        badt = [t for t in row["trials"] if t["ok"] != row["n"] or t["end"] != row["g"] or t["dist"] != 1 or t["loneg"] or t["hineg"]][:3]
-        v.violation("lazystart inv=%s n=%d" % (inv, row["n"]),
-                    "once(%d) never Start()ed, %d goroutines released together: %s fails, e.g. trials %s" % (row["n"], row["g"], inv, badt),
+        badt = [t for t in row["trials"] if (row["kind"] == "once" and (t["ok"] != row["n"] or t["end"] != row["g"] or t["dist"] != 1)) or t["loneg"] or t["hineg"] or t["leftneg"] != t["leftall"] or (row["kind"] == "unl" and t["end"] != 0)][:3]
+        v.violation("lazystart kind=%s inv=%s n=%d" % (row["kind"], inv, row["n"]),
+                    "%s never Start()ed, %d goroutines released together: %s fails, e.g. trials %s" % ("once(%d)" % row["n"] if row["kind"] == "once" else "unlimited(1h)", row["g"], inv, badt),
                     replay_obj={"kind": "lazy", "invariant": inv, "line": row}, replay_name="lazy_%d_%s.json" % (ln, inv))
     samples = [{"tree": tree_sig(bh["tree"]), "mode": bh["tree"]["mode"],
                 "steps": [[e["c"], e["a"], e["node"]] + ([e["ret"]] if e["ret"] else []) for e in bh["hist"][:14]]}
@@ -150,7 +150,7 @@ def replay(path, v):
         vlib.write_ndjson(p, [obj["line"]])
         tl = vlib.tlc("TraceLazyStart", "TraceLazyStart.cfg", env={"VERIF_TRACE": p}, cont=True)
         for inv, _ in tl.all_violations:
-            v.violation("lazystart inv=%s n=%d" % (inv, obj["line"]["n"]), "recorded batch violates %s" % inv)
+            v.violation("lazystart kind=%s inv=%s n=%d" % (obj["line"]["kind"], inv, obj["line"]["n"]), "recorded batch violates %s" % inv)
         return None
     if obj.get("kind") == "replay":
         b = vlib.harness_build()
